@@ -292,6 +292,53 @@ def check(case):
     return out
 
 
+CTC_LISTINGS = ("get_logical_constraints", "get_arithmetic_constraints", "get_aggregations_constraints",
+                "get_simple_constraints", "get_complex_constraints", "get_pseudocomplex_constraints",
+                "get_strictcomplex_constraints", "get_requires_constraints", "get_excludes_constraints")
+CTC_PREDICATES = ("is_logical_constraint", "is_arithmetic_constraint", "is_aggregation_constraint",
+                  "is_single_feature_constraint", "is_simple_constraint", "is_complex_constraint",
+                  "is_pseudocomplex_constraint", "is_strictcomplex_constraint", "is_requires_constraint",
+                  "is_excludes_constraint")
+
+
+def _ctc_reports(fm):
+    """Everything the library reports about the constraints of fm, as plain data keyed by constraint position."""
+    rep = {}
+    for meth in CTC_LISTINGS:
+        got = lib(getattr(fm, meth))
+        rep[meth] = got.label if isinstance(got, Raised) else sorted(i for i, c in enumerate(fm.ctcs) if any(c is g for g in got))
+    for i, c in enumerate(fm.ctcs):
+        for pred in CTC_PREDICATES:
+            got = lib(getattr(c, pred))
+            rep[f"{pred}#{i}"] = got.label if isinstance(got, Raised) else got
+        got = lib(c.get_features)
+        rep[f"get_features#{i}"] = got.label if isinstance(got, Raised) else sorted(got)
+    return rep
+
+
+def check_history(case):
+    """One model object, queried, edited in place through the public API (tree edits; constraint formulas replaced
+    through the `ast` property), queried again: every query must describe the model as it is now - checked against the
+    object graph (check_model) and, for the constraint reports, against a fresh build of the edited model."""
+    from vf.props import _bool
+    out = []
+    fm = build.build(case["model"])
+    check_model(fm, out)
+    _ctc_reports(fm)
+    for step, ed in enumerate(case["edits"]):
+        _bool.morph_checked(fm, ed["model"])
+        sub_out = []
+        check_model(fm, sub_out)
+        mine, fresh = _ctc_reports(fm), _ctc_reports(build.build(ed["model"]))
+        for k in mine:
+            if mine[k] != fresh.get(k):
+                sub_out.append((f"C03.ctc-report-differs-from-fresh-build:{k.split('#')[0]}",
+                                f"{k}: edited object {mine[k]!r:.80}, fresh build {fresh.get(k)!r:.80}"))
+                break
+        out += [(k.replace("C03.", "C03.after-in-place-edit.", 1), f"step {step} ({ed['label']}): {d}") for k, d in sub_out]
+    return list(dict.fromkeys(out))
+
+
 def nontrivial(case):
     m = case["model"]
     for f, _ in build.iter_feats(m["root"]):
@@ -305,6 +352,12 @@ def nontrivial(case):
 
 
 def classes(case):
+    if "edits" in case:
+        return {"edit:" + e["label"] for e in case["edits"]}
+    return _classes(case)
+
+
+def _classes(case):
     m = case["model"]
     out = set()
     for r, _ in build.iter_rels(m["root"]):
@@ -324,7 +377,18 @@ def classes(case):
     return out
 
 
+def _histories(tier):
+    from vf.props import _bool
+    hist_profile = S.Profile(S.ident_names(), single=("mandatory", "optional", "card1"),
+                             group=("alternative", "or", "mutex", "card"), layout="free",
+                             ftypes=("BOOLEAN", "BOOLEAN", "INTEGER", "REAL", "STRING"), fcards=True, ctc_max=4,
+                             ctc_depth=3)
+    return _bool.edit_histories(hist_profile, 10, with_ctcs=True, formula_edits=True)
+
+
 SUBS = [
+    Sub("edit-histories", check_history, gen=_histories, nontrivial=lambda case: True, classes=classes,
+        n={"quick": 150, "thorough": 2000}, essential=["edit:move", "edit:operator-same-kind", "edit:operand-existing"]),
     Sub("constructed", check, gen=gen, nontrivial=nontrivial, classes=classes,
         n={"quick": 800, "thorough": 6000},
         essential=["rel:mutex", "rel:cardinal", "rel:other1", "multi-relations-parent", "typed",
